@@ -50,6 +50,21 @@ const ENTRIES: [&str; NE] = [
 const ALL_MASK: u16 = (1 << NE) - 1;
 /// The property's own watchdog, CPU seconds per (input, entry point).
 const WATCHDOG_S: u64 = 120;
+/// Quick tier only: the pinned witnesses of OPEN cpu findings are re-confirmed with this reduced
+/// budget (still hanging at the same call site after 20 CPU-seconds counts as "the finding is
+/// still there"); the thorough tier and every judgement of a NEW hang use the full 120 s.
+const QUICK_CONFIRM_S: u64 = 20;
+static QUICK_CONFIRM_INPUTS: std::sync::Mutex<Vec<u64>> = std::sync::Mutex::new(Vec::new());
+
+fn budget_for(input: &str) -> u64 {
+    let h = hash_of(input);
+    let quick = QUICK_CONFIRM_INPUTS.lock().map(|v| v.contains(&h)).unwrap_or(false);
+    if quick {
+        QUICK_CONFIRM_S
+    } else {
+        WATCHDOG_S
+    }
+}
 /// First-pass budget per (input, entry point) inside a batch; anything slower is re-run alone
 /// with the full watchdog before it is judged.
 const FIRST_PASS_S: u64 = 5;
@@ -789,8 +804,18 @@ fn run_batch(
 fn run_isolated(bin: &Bin, input: &Arc<String>, e: usize, bs: &mut BatchStats) -> Option<PairOut> {
     // the worker itself arms the kernel limit at (CPU used so far) + 120 s right before the call, so
     // that process start-up is not charged and the SIGXCPU handler has room to report the call site
-    let r = run_batch(bin, &[(1u16 << e, input.clone())], WATCHDOG_S, 3600, bs);
-    r.into_iter().next().and_then(|v| v.into_iter().next())
+    let mut last = None;
+    for _attempt in 0..2 {
+        let r = run_batch(bin, &[(1u16 << e, input.clone())], budget_for(input), 3600, bs);
+        last = r.into_iter().next().and_then(|v| v.into_iter().next());
+        match &last {
+            // killed by the CPU limit but the handler could not say where (e.g. its own back-stop
+            // fired on an overloaded box): the signature would be weaker than it can be — once more
+            Some(PairOut { pr: Pr::Died(d), .. }) if d.cpu_limit_hit() && d.site.is_none() => continue,
+            _ => break,
+        }
+    }
+    last
 }
 
 // ------------------------------------------------------------------------------------------
@@ -1490,10 +1515,6 @@ fn gen_template(rng: &mut Rng) -> String {
     let a = soup(rng, 6);
     let b = soup(rng, 6);
     let c = soup(rng, 4);
-    const NUMS: &[&str] = &[
-        "0", "1", "5", "00", "307445734561825861", "999999999999999999", "5124095576030431", "18446744073709551615",
-        "18446744073709551616", "9223372036854775807", "4294967296", "-1", "1.5", "99999999999999999999999", "-9223372036854775808", "2147483648",
-    ];
     const UNITS: &[&str] = &["ms", "sec", "seconds", "min", "minutes", "hour", "hours", "days", "m", ""];
     let s = match rng.below(19) {
         16 => format!(
@@ -1535,6 +1556,117 @@ fn gen_template(rng: &mut Rng) -> String {
         14 => format!("{}: {} from stream({}) {} && e: T from stream(\"s\")", c, a, b, soup(rng, 4)),
         _ => format!("rule \"R\" {{ when {}({}) {} then $o.m({}); }}", rng.pick(&["exists", "forall", "accumulate", "test", "!", "$x : T", "f"]), a, b, c),
     };
+    clip(&s, MAX_LEN)
+}
+
+const NUMS: &[&str] = &[
+    "0", "1", "5", "00", "307445734561825861", "999999999999999999", "5124095576030431", "18446744073709551615",
+    "18446744073709551616", "9223372036854775807", "4294967296", "-1", "1.5", "99999999999999999999999",
+    "-9223372036854775808", "2147483648", "1e308", "0.0", ".5", "3.",
+];
+
+/// Arithmetic / logical expressions over the keys of the small fact store: well-formed trees of
+/// depth <= 4 (so that the evaluator and the expression parsers actually compute something), one in
+/// four with a hostile edit. Only the four expression calls are run on these.
+fn gen_expression(rng: &mut Rng) -> String {
+    fn atom(rng: &mut Rng) -> String {
+        const KEYS: &[&str] = &[
+            "a", "b", "c", "x", "s", "n", "t", "z", "big", "User.Age", "User.Name", "Order.quantity",
+            "Order.price", "Customer.firstName", "Customer.age", "arr", "missing", "Missing.field", "?v",
+        ];
+        const STRS: &[&str] = &["\"text\"", "'q'", "\"12\"", "\"\"", "\"a b\"", "\"1+2\"", "'\u{e9}'", "\"\u{1f600}\"", "true", "false", "null"];
+        match rng.below(10) {
+            0..=4 => rng.pick(KEYS).to_string(),
+            5..=7 => rng.pick(NUMS).to_string(),
+            _ => rng.pick(STRS).to_string(),
+        }
+    }
+    fn tree(rng: &mut Rng, depth: usize, logical: bool) -> String {
+        if depth == 0 || rng.chance(1, 4) {
+            return atom(rng);
+        }
+        let sp = if rng.chance(2, 3) { " " } else { "" };
+        let ops: &[&str] = if logical {
+            &["+", "-", "*", "/", "%", "==", "!=", ">=", "<=", ">", "<", "&&", "||"]
+        } else {
+            &["+", "-", "*", "/", "%"]
+        };
+        let l = tree(rng, depth - 1, logical);
+        let r = tree(rng, depth - 1, logical);
+        let e = format!("{}{}{}{}{}", l, sp, rng.pick(ops), sp, r);
+        match rng.below(8) {
+            0 | 1 => format!("({})", e),
+            2 if logical => format!("!({})", e),
+            3 => format!("-{}", e),
+            _ => e,
+        }
+    }
+    let logical = rng.chance(1, 3);
+    let depth = 1 + rng.below(4);
+    let mut s = tree(rng, depth, logical);
+    if logical && rng.chance(1, 6) {
+        s = format!("NOT {}", s);
+    }
+    if rng.chance(1, 4) {
+        let mut cs: Vec<char> = s.chars().collect();
+        let bs = token_boundaries(&cs);
+        let p = if bs.is_empty() { 0 } else { *rng.pick(&bs) };
+        match rng.below(4) {
+            0 => cs.insert(p.min(cs.len()), *rng.pick(HOSTILE_CHARS)),
+            1 => {
+                if !cs.is_empty() {
+                    let k = rng.below(cs.len());
+                    cs.remove(k);
+                }
+            }
+            2 => cs.insert(p.min(cs.len()), *rng.pick(&['(', ')', '"', '\'', '+', '-', '*', '/', '%', '.', ' '])),
+            _ => cs.truncate(p),
+        }
+        s = cs.iter().collect();
+    }
+    clip(&s, MAX_LEN)
+}
+
+/// Stream patterns and joins from their grammar, with hostile numbers/units and small defects.
+/// Only the two stream-pattern calls are run on these (the rule parsers see stream patterns
+/// through the template generator).
+fn gen_stream(rng: &mut Rng) -> String {
+    const UNITS: &[&str] = &["ms", "milliseconds", "sec", "seconds", "min", "minutes", "hour", "hours", "min", "sec", "days", "m", ""];
+    fn one(rng: &mut Rng) -> String {
+        let var = *rng.pick(&["e", "login", "click_1", "ev2", "p", "purchase", "\u{e9}v", "_", "9x", ""]);
+        let ty = *rng.pick(&["", "LoginEvent", "T", "ClickEvent", "Purchase_2", "from", "\u{4e2d}Type", "A.B"]);
+        let name = *rng.pick(&["logins", "user-events", "clicks", "s", "sensors.temp", "", "a\"b", "\u{1f600}", "s p a c e"]);
+        let ws = *rng.pick(&[" ", " ", "  ", "\n", "\t", ""]);
+        let mut s = format!("{}:{}{}{}from{}stream(\"{}\")", var, ws, ty, if ty.is_empty() { "" } else { " " }, ws, name);
+        if rng.chance(2, 3) {
+            s.push_str(&format!(
+                "{}over{}window({}{}{},{}{})",
+                ws,
+                ws,
+                rng.pick(NUMS),
+                rng.pick(&[" ", " ", "", "  "]),
+                rng.pick(UNITS),
+                ws,
+                rng.pick(&["sliding", "tumbling", "sliding", "tumbling", "session", "Sliding", ""])
+            ));
+        }
+        s
+    }
+    let mut s = one(rng);
+    if rng.chance(1, 2) {
+        s = format!("{}{}{}{}", s, rng.pick(&[" && ", "&&", " &&\n    ", " & ", " || "]), one(rng), if rng.chance(1, 4) { " && a.x == b.x" } else { "" });
+    }
+    if rng.chance(1, 6) {
+        let mut cs: Vec<char> = s.chars().collect();
+        let bs = token_boundaries(&cs);
+        let p = if bs.is_empty() { 0 } else { *rng.pick(&bs) };
+        if rng.bool() {
+            cs.insert(p.min(cs.len()), *rng.pick(HOSTILE_CHARS));
+        } else {
+            cs.truncate(p);
+        }
+        s = cs.iter().collect();
+    }
     clip(&s, MAX_LEN)
 }
 
@@ -1772,6 +1904,9 @@ struct Shared {
     /// how many slow pairs explained by an open finding still get the full re-run
     attr_rerun_left: AtomicUsize,
     open_sigs: BTreeSet<String>,
+    /// cpu signatures already established by an isolated re-run of THIS run: further slow pairs
+    /// that the first pass attributes to the same (entry point, call site) add nothing to the verdict
+    confirmed: Mutex<BTreeSet<String>>,
     sem: (Mutex<usize>, Condvar),
 }
 
@@ -1827,6 +1962,9 @@ fn schedule_isolated(sh: &Arc<Shared>, st: &mut Stats, input: Arc<String>, e: us
             if let Some(b) = bins.first() {
                 let cause = explain(b, &input, e, &death, &mut bs);
                 let sig = format!("C05|cpu>120s|{}|{}", sig_entry(e), cause);
+                if cause != "unexplained" && sh2.confirmed.lock().map(|c| c.contains(&sig)).unwrap_or(false) {
+                    return IsoResult { input, entry: e, gen, outs, attributed: Some(sig), bs };
+                }
                 if cause != "unexplained" && sh2.open_sigs.contains(&sig) {
                     let quota = sh2
                         .attr_rerun_left
@@ -1857,6 +1995,13 @@ fn schedule_isolated(sh: &Arc<Shared>, st: &mut Stats, input: Arc<String>, e: us
                 died = true;
                 if !d.external_kill() {
                     cause = Some(explain(b, &input, e, d, &mut bs));
+                }
+            }
+            if let (Some(c), Some(PairOut { pr: Pr::Died(d), .. })) = (&cause, &r) {
+                if d.cpu_limit_hit() && c != "unexplained" {
+                    if let Ok(mut set) = sh2.confirmed.lock() {
+                        set.insert(format!("C05|cpu>120s|{}|{}", sig_entry(e), c));
+                    }
                 }
             }
             outs.push((b.name, r, cause));
@@ -2024,6 +2169,45 @@ fn shrink_panic(bin: &Bin, input: &str, e: usize, rec: &PanicRec, bs: &mut Batch
     best
 }
 
+/// Delta-debug an input that kills its process quickly (stack overflow, abort): one child per
+/// candidate, first-pass CPU budget; a candidate counts only if it dies the same way.
+fn shrink_death(bin: &Bin, input: &str, e: usize, want_overflow: bool, bs: &mut BatchStats) -> String {
+    let mut fails = |cs: &[char]| -> bool {
+        let s: String = cs.iter().collect();
+        let r = run_batch(bin, &[(1u16 << e, Arc::new(s))], FIRST_PASS_S, 3600, bs);
+        match r.first().and_then(|v| v.first()).map(|p| &p.pr) {
+            Some(Pr::Died(d)) => !d.cpu_limit_hit() && !d.external_kill() && d.overflow_msg == want_overflow,
+            _ => false,
+        }
+    };
+    let mut cur: Vec<char> = input.chars().collect();
+    let mut budget = 260usize;
+    let mut chunk = (cur.len() / 2).max(1);
+    loop {
+        let mut i = 0;
+        let mut progressed = false;
+        while i < cur.len() && budget > 0 {
+            let end = (i + chunk).min(cur.len());
+            let mut cand = cur.clone();
+            cand.drain(i..end);
+            budget -= 1;
+            if fails(&cand) {
+                cur = cand;
+                progressed = true;
+            } else {
+                i += chunk;
+            }
+        }
+        if budget == 0 || (chunk == 1 && !progressed) {
+            break;
+        }
+        if chunk > 1 {
+            chunk = (chunk / 2).max(1);
+        }
+    }
+    cur.iter().collect()
+}
+
 fn explore_impl(cli: &Cli, st: &mut Stats) {
     let Some(release) = release_bin() else {
         st.inconclusive("cannot locate the running executable");
@@ -2060,6 +2244,7 @@ fn explore_impl(cli: &Cli, st: &mut Stats) {
         iso_cap: if quick { 24 } else { 160 },
         attr_rerun_left: AtomicUsize::new(if quick { 0 } else { 6 }),
         open_sigs: open_sigs.clone(),
+        confirmed: Mutex::new(BTreeSet::new()),
         sem: (Mutex::new((cli.threads / 2).max(2)), Condvar::new()),
     });
 
@@ -2130,13 +2315,17 @@ fn explore_impl(cli: &Cli, st: &mut Stats) {
     // ---- run: work units (slices of the systematic list, then seeded generator streams) are pulled
     //      from one queue by the worker threads; the SET of inputs depends on the seed only ----
     let total = |q: u64, t: u64| cli.n(q, t) as usize;
-    let plan: Vec<(&'static str, usize)> = vec![
-        ("raw-bytes", total(5_000, 100_000)),
-        ("token-soup", total(1_200, 12_000)),
-        ("template-soup", total(7_000, 120_000)),
-        ("mutation", total(5_000, 120_000)),
-        ("bracket-nesting", total(500, 8_000)),
-        ("chain-short", total(1_200, 20_000)),
+    const EXPR_MASK: u16 = 1 << 3 | 1 << 4 | 1 << 12 | 1 << 13;
+    const STREAM_MASK: u16 = 1 << 10 | 1 << 11;
+    let plan: Vec<(&'static str, usize, u16)> = vec![
+        ("raw-bytes", total(5_000, 100_000), ALL_MASK),
+        ("token-soup", total(1_200, 12_000), ALL_MASK),
+        ("template-soup", total(7_000, 100_000), ALL_MASK),
+        ("mutation", total(5_000, 100_000), ALL_MASK),
+        ("bracket-nesting", total(500, 8_000), ALL_MASK),
+        ("chain-short", total(1_200, 20_000), ALL_MASK),
+        ("expression-grammar", total(4_000, 80_000), EXPR_MASK),
+        ("stream-grammar", total(2_000, 40_000), STREAM_MASK),
     ];
     let nstreams: usize = if quick { 96 } else { 768 };
     enum Work {
@@ -2192,7 +2381,7 @@ fn explore_impl(cli: &Cli, st: &mut Stats) {
                 }
                 Work::Stream(j) => {
                     let mut rng = Rng::derive(cli.seed, 1000 + j as u64);
-                    for (g, n) in plan.iter() {
+                    for (g, n, mask) in plan.iter() {
                         if !gen_enabled(g) {
                             continue;
                         }
@@ -2209,9 +2398,11 @@ fn explore_impl(cli: &Cli, st: &mut Stats) {
                                 "template-soup" => gen_template(&mut rng),
                                 "mutation" => gen_mutation(&mut rng, corpus),
                                 "bracket-nesting" => gen_nesting(&mut rng, corpus),
+                                "expression-grammar" => gen_expression(&mut rng),
+                                "stream-grammar" => gen_stream(&mut rng),
                                 _ => gen_chain_short(&mut rng),
                             };
-                            b.push(st, ALL_MASK, s, g);
+                            b.push(st, *mask, s, g);
                         }
                     }
                     b.flush(st);
@@ -2246,7 +2437,11 @@ fn explore_impl(cli: &Cli, st: &mut Stats) {
                 continue;
             }
             Some(sig) => {
-                st.count(&format!("slow_pairs_attributed_to_open_finding_not_rerun::{}", sig));
+                if sh.open_sigs.contains(sig) {
+                    st.count(&format!("slow_pairs_attributed_to_open_finding_not_rerun::{}", sig));
+                } else {
+                    st.count(&format!("slow_pairs_attributed_to_violation_of_this_run_not_rerun::{}", sig));
+                }
                 continue;
             }
             None => {}
@@ -2295,7 +2490,39 @@ fn explore_impl(cli: &Cli, st: &mut Stats) {
             }
         }
     }
-    for (_, v) in deaths {
+    // stack overflows / aborts die fast, so their witnesses can be delta-debugged with one child per
+    // candidate; CPU hangs cannot (a candidate that still hangs costs 120 s)
+    let deaths: Vec<Violation> = std::thread::scope(|s| {
+        let hs: Vec<_> = deaths
+            .into_values()
+            .map(|v| {
+                let sh = &sh;
+                let open_sigs = &open_sigs;
+                s.spawn(move || {
+                    if v.sig.contains("|cpu>") || open_sigs.contains(&v.sig) {
+                        return (v, BatchStats::default());
+                    }
+                    let mut bs = BatchStats::default();
+                    let Some(c) = Case::from_json(&v.case) else { return (v, bs) };
+                    let bin = if c.profile == "devopt" { sh.devopt.as_ref() } else { Some(&sh.release) };
+                    let (Some(bin), Some(&e)) = (bin, c.entries.first()) else { return (v, bs) };
+                    let want_overflow = v.sig.contains("|stack-overflow|");
+                    let small = shrink_death(bin, &c.input, e, want_overflow, &mut bs);
+                    if small.len() < c.input.len() {
+                        let cand = Case { input: small, ..c.clone() };
+                        let (vs, _) = run_case(&cand, false);
+                        // the cause predicate is recomputed on the shrunk input; clause and entry must match
+                        if let Some(nv) = vs.into_iter().find(|x| x.clause == v.clause) {
+                            return (nv, bs);
+                        }
+                    }
+                    (v, bs)
+                })
+            })
+            .collect();
+        hs.into_iter().filter_map(|h| h.join().ok()).map(|(v, _)| v).collect()
+    });
+    for v in deaths {
         st.violation(v);
     }
 
@@ -2404,8 +2631,14 @@ fn start_background(cli: &Cli) -> &'static Background {
                 continue;
             }
             let slots = slots.clone();
+            let quick_confirm = cli.tier == Tier::Quick && f.sig.contains("|cpu>");
             let h = std::thread::spawn(move || {
                 let Some(c) = Case::from_json(&case_json) else { return vec![] };
+                if quick_confirm {
+                    if let Ok(mut v) = QUICK_CONFIRM_INPUTS.lock() {
+                        v.push(hash_of(c.input.as_str()));
+                    }
+                }
                 {
                     let (m, cv) = &*slots;
                     let mut free = m.lock().unwrap_or_else(|x| x.into_inner());
@@ -2449,7 +2682,7 @@ impl Check for C05 {
     }
     fn rule(&self) -> String {
         format!(
-            "Each input (UTF-8, <= 4096 bytes) is given to all 14 calls ({}) in a release and in a devopt (debug-assertions + overflow-checks) worker child on the main thread with an 8 MiB stack; evaluations = inputs, pairs::<profile> = (input, call) executions. Generators: raw bytes -> lossy UTF-8; token soup over GRL keywords/operators/delimiters/quotes/digits/multi-byte characters; valid frames of every input language with soup in the slots; 1-4 stacked mutations (splice, truncate, cut, duplicate, delete, swap, hostile character at a token boundary, replace, token insert/delete, short chain) of valid texts (every rule/query block of the repository's *.grl files plus hand-written seeds of all languages); bracket nesting of depth 1..=32 (balanced and unbalanced) around random token spans; short prefix chains (2..=64 repetitions) of {} units in {} contexts — all SAMPLED with the seed. SYSTEMATIC: a 2-, 3-, 4-byte or combining character inserted at every token boundary of the hand-written seeds (quick: one of the four per boundary; thorough: all four, plus the first 150 corpus texts of <= 400 bytes); every character-boundary truncation of selected seeds; the (unit x context) grid of prefix chains at the FULL 4 KiB length (quick: a sixth of the grid rotated by the seed; thorough: the whole grid). An input is non-trivial when at least one call returned a non-empty value or panicked/died (i.e. some parser engaged with it); distinct by input text.",
+            "Each input (UTF-8, <= 4096 bytes) is given to all 14 calls ({}) in a release and in a devopt (debug-assertions + overflow-checks) worker child on the main thread with an 8 MiB stack; evaluations = inputs, pairs::<profile> = (input, call) executions. Generators: raw bytes -> lossy UTF-8; token soup over GRL keywords/operators/delimiters/quotes/digits/multi-byte characters; valid frames of every input language with soup in the slots; 1-4 stacked mutations (splice, truncate, cut, duplicate, delete, swap, hostile character at a token boundary, replace, token insert/delete, short chain) of valid texts (every rule/query block of the repository's *.grl files plus hand-written seeds of all languages); bracket nesting of depth 1..=32 (balanced and unbalanced) around random token spans; short prefix chains (2..=64 repetitions) of {} units in {} contexts; arithmetic/logical expression trees of depth <= 4 over the keys of the small fact store, one in four with a hostile edit (run on the four expression calls only); stream patterns and joins from their grammar with hostile numbers, units and names (run on the two stream-pattern calls only) — all SAMPLED with the seed. SYSTEMATIC: a 2-, 3-, 4-byte or combining character inserted at every token boundary of the hand-written seeds (quick: one of the four per boundary; thorough: all four, plus the first 150 corpus texts of <= 400 bytes); every character-boundary truncation of selected seeds; the (unit x context) grid of prefix chains at the FULL 4 KiB length (quick: a sixth of the grid rotated by the seed; thorough: the whole grid). An input is non-trivial when at least one call returned a non-empty value or panicked/died (i.e. some parser engaged with it); distinct by input text.",
             ENTRIES.join(", "),
             CHAIN_UNITS.len(),
             CHAIN_CONTEXTS.len()
@@ -2457,8 +2690,9 @@ impl Check for C05 {
     }
     fn assumptions(&self) -> Vec<String> {
         vec![
-            "'hang' is judged exactly as the statement says: more than 120 CPU-seconds (kernel RLIMIT_CPU of a child that runs this single call) — inputs that exceed a 10 s first pass inside a batch are re-run alone with the full budget before being judged".into(),
+            "'hang' is judged exactly as the statement says: more than 120 CPU-seconds of this single call (kernel RLIMIT_CPU, armed by the worker right before the call) — pairs that exceed a 5 s first pass inside a batch are re-run alone with the full budget before being judged, except pairs whose call site at the first-pass kill is that of an OPEN cpu finding of the same entry point (not re-run: they can only be no violation or a hit of that finding; counted in slow_pairs_attributed_to_open_finding_not_rerun; the pinned witness of the finding itself is always re-run in full)".into(),
             "a panic in either build profile is a panic; signatures carry entry point, message class and innermost crate frame, not the profile".into(),
+            "the cause predicate of a CPU kill is observed, not inferred: the worker's SIGXCPU handler reports the innermost crate frame and whether the time was being spent inside the rexile regex dependency (one root cause: its super-linear matcher) or in the crate's own code (in:<frame>)".into(),
             "stack overflow is recognised by the Rust runtime's own 'has overflowed its stack' message of a child whose RLIMIT_STACK is 8 MiB".into(),
             "balanced bracket nesting is limited to depth 32 as in the quantifier; only deliberately unbalanced prefix chains go to the full length".into(),
         ]
